@@ -16,7 +16,9 @@ def run(ctx, F, cg):
     ctx.rule("R15d", "Wal::append increments the sequence before writing, writes the length prefix before the payload, and the prefix is the payload's length")
     # ---- R15a ------------------------------------------------------------------------------------------
     rp = F.fn(WAL + "replay")
-    b = Body(F.mir(rp["path"]), rp)
+    from .. import inline as inl_
+    b = inl_.body(F, rp["path"], inl_.private_helpers(F, rp["path"]))      # frame-reading helpers are read in place
+    rp = b.fn
     ctx.saw_fn(rp["path"]); ctx.saw_calls(len(b.calls()))
     reads = [c for c in b.calls() if c.path.rsplit("::", 1)[-1] in ("read_exact", "read", "read_to_end", "read_until")]
     ctx.floor("R15a", "reads in Wal::replay", len(reads), 2)
@@ -142,7 +144,8 @@ def run(ctx, F, cg):
             ctx.violation("R15h", "new|sequence|%d|not-evaluable" % k_, where(nw, line), "the starting sequence %s cannot be evaluated (closed world: max, min, +, -, saturating_*): %s" % (od.show(e_), ex))
     # ---- R15d ------------------------------------------------------------------------------------------
     ap = F.fn(WAL + "append")
-    ab = Body(F.mir(ap["path"]), ap)
+    ab = inl_.body(F, ap["path"], inl_.private_helpers(F, ap["path"]))
+    ap = ab.fn
     ctx.saw_fn(ap["path"]); ctx.saw_calls(len(ab.calls()))
     writes = [c for c in ab.calls() if c.path.rsplit("::", 1)[-1] == "write_all"]
     incs = [i for i, j, pl, rv, line, exp in ab.stmts() if any(p.endswith("Wal.sequence") for p in pl[1]) ]
@@ -201,6 +204,10 @@ def run(ctx, F, cg):
                     continue
                 rets = b.ret_blocks()
                 ok = all(b.must_pass(eof_t, rb, file_next) for rb in rets if rb in b.reachable(eof_t))
+                if not ok and b.mir.get("inlined"):
+                    # with the frame-reading helpers read in place, the helper's `Ok(false)` return meets the caller's
+                    # `?` at a join; the error side of that join is not a path of the torn-record branch
+                    ok = b.success_passes(eof_t, file_next)
                 inst = "replay|torn-record-ends-file|%d" % k
                 k += 1
                 if ok:
